@@ -32,6 +32,15 @@ class Undecided(Exception):
         self.detail = detail
 
 
+def unit_items(cfg, features):
+    """items of the unit under a feature set (`items_if`: {feature: [items]} adds feature-gated items)"""
+    items = list(cfg["items"])
+    for feat, extra in cfg.get("items_if", {}).items():
+        if feat in features:
+            items += extra
+    return items
+
+
 def run_extract(repo, features, items, workdir):
     req = {"repo": repo, "features": features, "items": items}
     os.makedirs(workdir, exist_ok=True)
@@ -205,7 +214,7 @@ def emit_ghost(out, sec, indent, fn):
         out.append((indent + t, o))
 
 
-def assemble_unit(unit_name, unit_dir, cfg, extracted, prelude_files, canary=False, extra_prelude_text=""):
+def assemble_unit(unit_name, unit_dir, cfg, extracted, prelude_files, canary=False, extra_prelude_text="", features=()):
     """Returns Assembled."""
     A = Assembled()
     canary_n = [0]
@@ -222,7 +231,11 @@ def assemble_unit(unit_name, unit_dir, cfg, extracted, prelude_files, canary=Fal
     if extra_prelude_text:
         A.add(extra_prelude_text, {"k": "gen"})
     secs = []
-    for ov in cfg.get("overlays", ["overlay.vrs"]):
+    ovs = list(cfg.get("overlays", ["overlay.vrs"]))
+    for feat, extra in cfg.get("overlays_if", {}).items():
+        if feat in features:
+            ovs += extra
+    for ov in ovs:
         these = parse_overlay(os.path.join(unit_dir, ov))
         if ov.startswith(".."):
             # contract file of another unit: only the contracts of functions used here apply
@@ -239,7 +252,7 @@ def assemble_unit(unit_name, unit_dir, cfg, extracted, prelude_files, canary=Fal
                 return s_
         return None
 
-    for item in cfg["items"]:
+    for item in unit_items(cfg, features):
         name = item["name"]
         ex = extracted[name]
         text = ex["text"].rstrip("\n")
